@@ -202,6 +202,20 @@ func TestCrossClusterReplay(t *testing.T) {
 			act := rapid.IntRange(0, 19).Draw(t, "act")
 			px, py := synced(part, "X"), synced(part, "Y")
 			switch {
+			case act == 11 && px < uint64(len(srcX)): // the batch names a raft group this node has not loaded (restart / partition move window)
+				e := srcX[px]
+				reqs := syncerpb.RaftReqs{RaftLog: []syncerpb.RaftLogData{{Type: syncerpb.EntryNormalRaw, ClusterName: "X", RaftGroupName: "default-7", Term: e.term, Index: e.index, RaftTimestamp: e.ts, Data: append([]byte(nil), e.data...)}}}
+				rsp, err := sim.Srv.ApplyRaftReqs(context.Background(), &reqs)
+				ok := err == nil && rsp != nil && rsp.ErrCode == 0 && rsp.ErrMsg == ""
+				trace = append(trace, fmt.Sprintf("deliver X[%d] addressed to raft group default-7, which is not loaded here -> ok=%v (%v)", e.index, ok, rsp))
+				canon = append(canon, fmt.Sprintf("unloaded%d", e.index))
+				labels["delivery_for_group_not_loaded"] = true
+				if ok {
+					fail("a delivery for a raft group that is not loaded on this node was acknowledged: the sender moves on and X[%d] is never applied", e.index)
+				}
+				if nx := synced(part, "X"); nx != px {
+					fail("a delivery for another raft group moved the synced position of X here: %d -> %d", px, nx)
+				}
 			case act <= 11: // delivery for X as a (re)starting sender would send it
 				if px >= uint64(len(srcX)) && rapid.Bool().Draw(t, "skipdone") {
 					continue
